@@ -94,3 +94,11 @@ Proof.
     rewrite ?E, ?N.eqb_refl; cbn; try (destruct (N.eqb_spec c c')); try subst c; cbn; rewrite ?E, ?N.eqb_refl; cbn; rewrite ?E, ?N.eqb_refl; cbn; auto;
     try (destruct (N.eqb t (l_target s)); cbn; auto).
 Qed.
+
+(* ---------- the dry run announces what the real run reports ---------- *)
+Theorem dry_run_announces_the_real_event m s d : link_event m s d <> EvError -> dry_link_event m s d = link_event m s d.
+Proof.
+  unfold dry_link_event, link_event, left_out, produced, plan_link, update_link, handle_symlink.
+  destruct m, d as [|t|c|]; destruct (l_cwd s) as [| |c']; cbn;
+    try (destruct (N.eqb t (l_target s))); try (destruct (N.eqb c c')); cbn; intro H; try reflexivity; try (exfalso; apply H; reflexivity).
+Qed.
